@@ -43,7 +43,7 @@ def oracle_step(ctx, t, res, cls):
         ctx.count("hyp:step-outside(stationary,P>0)")
         return  # a stationary method never accumulates minutes: outside the hypotheses
     ctx.count("hyp:step-ok")
-    inp = {"step": list(t), "cls": cls, "impl": {k: (list(v) if isinstance(v, tuple) else str(v) if isinstance(v, dt.date) else v) for k, v in res.items()}}
+    inp = {"step": list(t), "cls": cls, "unworkable_kind": res.get("unworkable_kind", 0), "impl": {k: (list(v) if isinstance(v, tuple) else str(v) if isinstance(v, dt.date) else v) for k, v in res.items()}}
     rp, before = res["report"], res["before"]
     today = rp[0] - before[0]
     reached = res["visited"] and (rp[3] == 1 or today > 0)
@@ -587,12 +587,18 @@ def stage_weather(ctx):
         lons = [-80.0, -120.0, -100.0]
         nlon = len(lons)
 
-        def fn(doy, i, j, seed=seed, nlon=nlon):
+        outside = CC.WX_BAD + CC.WX_NAN     # beyond the envelope, or a missing value (NaN in the file)
+
+        def fn(doy, i, j, seed=seed, nlon=nlon, outside=outside):
             inside = ((doy + 1) >> (i * nlon + j)) & 1
             k = seed + doy * 5 + i * 3 + j
-            return CC.WX_OK[k % len(CC.WX_OK)] if inside else CC.WX_BAD[k % len(CC.WX_BAD)]
+            return CC.WX_OK[k % len(CC.WX_OK)] if inside else outside[k % len(outside)]
 
-        weather = C.real_weather(fn, lats, lons)
+        def cube_fn(doy, i, j):
+            (t, w, p) = fn(doy, i, j)
+            return (C.NAN if t is None else t, C.NAN if w is None else w, C.NAN if p is None else p)
+
+        weather = C.real_weather(cube_fn, lats, lons)
         slats, slons = sorted(lats), sorted(lons)
         # one site near every cell (so each day's pattern is fully observed) + a few random ones
         sites = []
@@ -620,17 +626,24 @@ def stage_weather(ctx):
                     (t, w, p) = fn(day.timetuple().tm_yday - 1, i, j)
                     cube_vals = (float(weather.temps[hour_index, i, j]), float(weather.winds[hour_index, i, j]),
                                  float(weather.precip[hour_index, i, j]))
-                    if cube_vals != (C.rt_temp(t), float(w), C.rt_precip(p)):
+                    want = (C.rt_temp(t), C.rt_wind(w), C.rt_precip(p))
+                    if any(not (a == b or (a != a and b != b)) for a, b in zip(cube_vals, want)):
                         raise core.InfraError("synthetic weather cube does not hold the generated value at %s" % day)
                     e = C.ENV
-                    ok = e["temp"][0] <= t <= e["temp"][1] and e["wind"][0] <= w <= e["wind"][1] and e["precip"][0] <= p <= e["precip"][1]
+                    # the oracle reads the cube: a missing value (NaN) in any of the three is inside no envelope
+                    missing = any(x != x for x in cube_vals)
+                    ok = (not missing) and e["temp"][0] <= t <= e["temp"][1] and e["wind"][0] <= w <= e["wind"][1] \
+                        and e["precip"][0] <= p <= e["precip"][1]
+                    if missing:
+                        ctx.count("weather:missing-value-at-cell")
                     visited, rep = res[s_.get_id()]
                     ctx.evaluations += 1
                     ctx.count("weather:" + ("workable" if ok else "unworkable"))
                     if leap_last:
                         ctx.count("weather:day-366-of-leap-year")
-                    ctx.nontrivial.add(("weather", cls, ok, (t < e["temp"][0]) or (t > e["temp"][1]), w > e["wind"][1],
-                                        p > e["precip"][1], leap_last, day.month in (1, 12), (day.month, day.day) == (2, 29)))
+                    ctx.nontrivial.add(("weather", cls, ok, t is None or (t < e["temp"][0]) or (t > e["temp"][1]),
+                                        w is None or w > e["wind"][1], p is None or p > e["precip"][1], missing, leap_last,
+                                        day.month in (1, 12), (day.month, day.day) == (2, 29)))
                     inp = {"weather": {"cls": cls, "lats": lats, "lons": lons, "seed": seed, "site_loc": [la, lo],
                                        "day": str(day), "cell": [i, j], "hour_index": hour_index, "values": [t, w, p],
                                        "visited": visited, "report": list(rep)}}
@@ -650,19 +663,22 @@ def replay_weather(ctx, w):
     seed, lats, lons = w["seed"], w["lats"], w["lons"]
     nlon = len(lons)
 
+    outside = CC.WX_BAD + CC.WX_NAN
+
     def fn(doy, i, j):
         inside = ((doy + 1) >> (i * nlon + j)) & 1
         k = seed + doy * 5 + i * 3 + j
-        return CC.WX_OK[k % len(CC.WX_OK)] if inside else CC.WX_BAD[k % len(CC.WX_BAD)]
+        return CC.WX_OK[k % len(CC.WX_OK)] if inside else outside[k % len(outside)]
 
-    weather = C.real_weather(fn, lats, lons)
+    weather = C.real_weather(lambda d, i, j: tuple(C.NAN if x is None else x for x in fn(d, i, j)), lats, lons)
     site = C.LocSite("w", 5, w["site_loc"][0], w["site_loc"][1])
     C.place_sites([site], weather)
     day = dt.date(*[int(x) for x in w["day"].split("-")])
     res, wp = C.impl_weather_day(w["cls"], [site], weather, day)
     (t, wi, p) = fn(day.timetuple().tm_yday - 1, w["cell"][0], w["cell"][1])
     e = C.ENV
-    ok = e["temp"][0] <= t <= e["temp"][1] and e["wind"][0] <= wi <= e["wind"][1] and e["precip"][0] <= p <= e["precip"][1]
+    ok = None not in (t, wi, p) and e["temp"][0] <= t <= e["temp"][1] and e["wind"][0] <= wi <= e["wind"][1] \
+        and e["precip"][0] <= p <= e["precip"][1]
     visited, rep = res["w"]
     print("day", day, "cell", w["cell"], "values at (tm_yday-1)*24+%d:" % WEATHER_HOUR, (t, wi, p), "inside envelope:", ok,
           "| visited:", visited, "report:", rep)
@@ -748,7 +764,7 @@ def replay(ctx, data):
         t = tuple(inp["step"])
         t = t if len(t) > 6 else t + (0,)
         cls = inp.get("cls", "method")
-        res = C.impl_step(*t[:6], cls=cls, today0=t[6])
+        res = C.impl_step(*t[:6], cls=cls, today0=t[6], unworkable_kind=inp.get("unworkable_kind", 0))
         print("impl :", C.impl_step_reply(res))
         print("model:", core.LeanDriver("drv_crew").run([C.step_line(*t[:6], today0=t[6])])[0])
         oracle_step(ctx, t, res, cls)
